@@ -217,29 +217,29 @@ pub fn main(args: &Args) -> i32 {
         (
             "2x1-full-dfs",
             Params { senders: 2, per_sender: 1, fd_sender: None, pending_budget: 1, api: false },
-            if quick { vec![Some(3), Some(4), Some(6), None] } else { vec![Some(4), Some(6), None] },
+            if quick { vec![None] } else { vec![None] },
         ),
         (
             "2x2",
             Params { senders: 2, per_sender: 2, fd_sender: Some(1), pending_budget: 2, api: false },
-            if quick { vec![Some(2), Some(3), Some(4), Some(5)] } else { vec![Some(3), Some(4), Some(5), Some(6), Some(7)] },
+            if quick { vec![Some(4)] } else { vec![Some(6), Some(7)] },
         ),
         (
             "3x1-fd",
             Params { senders: 3, per_sender: 1, fd_sender: Some(0), pending_budget: 2, api: false },
-            if quick { vec![Some(2), Some(3), Some(4), Some(5)] } else { vec![Some(3), Some(4), Some(5), Some(6), Some(7)] },
+            if quick { vec![Some(4)] } else { vec![Some(6), Some(7)] },
         ),
         (
             "2x2-api",
             Params { senders: 2, per_sender: 2, fd_sender: None, pending_budget: 2, api: true },
-            if quick { vec![Some(2), Some(3), Some(4), Some(5)] } else { vec![Some(3), Some(4), Some(5), Some(6)] },
+            if quick { vec![Some(4)] } else { vec![Some(6)] },
         ),
     ];
     for (name, p, bounds) in scenarios {
         let plan = SchedPlan {
             bounds,
             max_execs: args.tier.pick(3_000_000, 80_000_000),
-            time_budget_s: args.tier.pick(7.0, 200.0),
+            time_budget_s: args.tier.pick(120.0, 900.0),
         };
         run_scenario(
             &report,
